@@ -2,6 +2,7 @@ package gvc
 
 import (
 	"fmt"
+	"sort"
 	"go/ast"
 	"go/constant"
 	"go/parser"
@@ -191,13 +192,17 @@ func (vc *VC) evalClause(ctx *Ctx, now, old *State, text string, extra *Env) (T,
 }
 
 func (ec *evalCtx) evalText(text string) (T, error) {
+	t, _, err := ec.evalTextT(text)
+	return t, err
+}
+
+func (ec *evalCtx) evalTextT(text string) (T, types.Type, error) {
 	src := rewriteImplies(text)
 	e, err := parser.ParseExpr(src)
 	if err != nil {
-		return T{}, fmt.Errorf("parse %q: %v", src, err)
+		return T{}, nil, fmt.Errorf("parse %q: %v", src, err)
 	}
-	t, _, err := ec.eval(e)
-	return t, err
+	return ec.eval(e)
 }
 
 func (vc *VC) baseEnv(ctx *Ctx) *Env {
@@ -511,6 +516,14 @@ func (ec *evalCtx) object(obj types.Object, e ast.Expr) (T, types.Type, error) {
 
 func (ec *evalCtx) typeExpr(e ast.Expr) (types.Type, error) {
 	switch x := e.(type) {
+	case *ast.ArrayType:
+		if x.Len == nil {
+			t, err := ec.typeExpr(x.Elt)
+			if err != nil {
+				return nil, err
+			}
+			return types.NewSlice(t), nil
+		}
 	case *ast.StarExpr:
 		t, err := ec.typeExpr(x.X)
 		if err != nil {
@@ -655,6 +668,20 @@ func (ec *evalCtx) call(x *ast.CallExpr) (T, types.Type, error) {
 			return T{S: eq(a.S, b.S), Sort: SBool}, types.Typ[types.Bool], nil
 		}
 		return T{S: implies(a.S, b.S), Sort: SBool}, types.Typ[types.Bool], nil
+	case "same":
+		// structural (bit-level) identity; on floats unlike Go's ==
+		if err := argN(2); err != nil {
+			return T{}, nil, err
+		}
+		a, _, err := ec.eval(x.Args[0])
+		if err != nil {
+			return a, nil, err
+		}
+		b, _, err := ec.eval(x.Args[1])
+		if err != nil {
+			return b, nil, err
+		}
+		return T{S: eq(a.S, b.S), Sort: SBool}, types.Typ[types.Bool], nil
 	case "ite":
 		if err := argN(3); err != nil {
 			return T{}, nil, err
@@ -714,6 +741,35 @@ func (ec *evalCtx) call(x *ast.CallExpr) (T, types.Type, error) {
 			return v, nil, err
 		}
 		return T{S: app("dyn", v.S), Sort: SInt}, types.Typ[types.Int], nil
+	case "dynis":
+		// dynis(v, pkg.Struct): the object v was allocated as that struct
+		if err := argN(2); err != nil {
+			return T{}, nil, err
+		}
+		v, _, err := ec.eval(x.Args[0])
+		if err != nil {
+			return v, nil, err
+		}
+		tt, err := ec.typeExpr(x.Args[1])
+		if err != nil {
+			return T{}, nil, err
+		}
+		return T{S: eq(app("dyn", v.S), fmt.Sprint(vc.typeID(tt))), Sort: SBool}, types.Typ[types.Bool], nil
+	case "ncalls":
+		return T{S: ec.now.callsN, Sort: SInt}, types.Typ[types.Int], nil
+	case "callee", "callret":
+		if err := argN(1); err != nil {
+			return T{}, nil, err
+		}
+		i, _, err := ec.eval(x.Args[0])
+		if err != nil {
+			return i, nil, err
+		}
+		arr := ec.now.callsA
+		if name == "callret" {
+			arr = ec.now.callsR
+		}
+		return T{S: app("select", arr, i.S), Sort: SInt}, nil, nil
 	case "isfresh":
 		v, _, err := ec.eval(x.Args[0])
 		if err != nil {
@@ -781,26 +837,39 @@ func (ec *evalCtx) applySpec(x ast.Expr, sf *SpecFun, args []T) (T, types.Type, 
 	if len(args) != len(sf.Params) {
 		return T{}, nil, ec.errf(x, "spec %s expects %d arguments", sf.Name, len(sf.Params))
 	}
+	ptys := make([]types.Type, len(args))
 	for i := range args {
 		if args[i].Sort == "Nil" {
 			args[i].Sort = SInt
 		}
-		if args[i].Sort != sf.Params[i] && !(sf.Params[i] == "Any") {
-			return T{}, nil, ec.errf(x, "spec %s argument %d: sort %s, want %s", sf.Name, i, args[i].Sort, sf.Params[i])
+		want := sf.Params[i]
+		if !isSortName(want) {
+			te, err := parser.ParseExpr(want)
+			if err != nil {
+				return T{}, nil, ec.errf(x, "spec %s parameter type %q: %v", sf.Name, want, err)
+			}
+			tt, err := ec.typeExpr(te)
+			if err != nil {
+				return T{}, nil, ec.errf(x, "spec %s parameter type %q: %v", sf.Name, want, err)
+			}
+			ptys[i] = tt
+			want = vc.sortOf(tt)
+		}
+		if args[i].Sort != want && !(want == "Any") {
+			return T{}, nil, ec.errf(x, "spec %s argument %d: sort %s, want %s", sf.Name, i, args[i].Sort, want)
 		}
 	}
 	if sf.CBody != "" {
 		sub := *ec
-		sub.env = newEnv(ec.env)
+		sub.env = newEnv(nil)
 		for i, n := range sf.PNames {
-			sub.env.bind(n, args[i], nil)
+			sub.env.bind(n, args[i], ptys[i])
 		}
 		if ec.depth > 20 {
 			return T{}, nil, ec.errf(x, "macro recursion too deep")
 		}
 		sub.depth = ec.depth + 1
-		t, err := sub.evalText(sf.CBody)
-		return t, nil, err
+		return sub.evalTextT(sf.CBody)
 	}
 	var as []string
 	for _, a := range args {
@@ -808,6 +877,14 @@ func (ec *evalCtx) applySpec(x ast.Expr, sf *SpecFun, args []T) (T, types.Type, 
 	}
 	vc.declareSpec(sf)
 	return T{S: app(sf.Name, as...), Sort: sf.Ret}, nil, nil
+}
+
+func isSortName(s string) bool {
+	switch s {
+	case SInt, SBool, SF64, SF32, SStr, SSlice, SIface, "Any":
+		return true
+	}
+	return strings.HasPrefix(s, "S_") || strings.HasPrefix(s, "O_") || strings.HasPrefix(s, "(")
 }
 
 func (vc *VC) declareSpec(sf *SpecFun) {
@@ -820,9 +897,14 @@ func (vc *VC) declareSpec(sf *SpecFun) {
 		return
 	}
 	// referenced specs inside the raw body must be declared first
-	for n, o := range vc.P.Specs {
+	var names []string
+	for n := range vc.P.Specs {
+		names = append(names, n)
+	}
+	sort.Strings(names)
+	for _, n := range names {
 		if n != sf.Name && strings.Contains(sf.Body, n) && containsWord(sf.Body, n) {
-			vc.declareSpec(o)
+			vc.declareSpec(vc.P.Specs[n])
 		}
 	}
 	var ps []string
@@ -873,7 +955,7 @@ func (ec *evalCtx) goCall(x *ast.CallExpr) (T, types.Type, error) {
 				if p := ec.importedPkg(id.Name); p != nil {
 					if fo, ok := p.Scope().Lookup(f.Sel.Name).(*types.Func); ok {
 						fn = vc.P.SSA.FuncValue(fo)
-						if fn == nil || fn.Blocks == nil {
+						if fn == nil || fn.Blocks == nil || !inModule(p) {
 							// external function: model
 							var as []T
 							for _, a := range x.Args {
@@ -939,6 +1021,25 @@ func (ec *evalCtx) goCall(x *ast.CallExpr) (T, types.Type, error) {
 		fn = vc.P.SSA.FuncValue(mo)
 		if fn == nil {
 			return T{}, nil, ec.errf(x, "no SSA for method %s", mo.FullName())
+		}
+		if mo.Pkg() != nil && !inModule(mo.Pkg()) {
+			as := []T{cur}
+			for _, a := range x.Args {
+				v, _, err := ec.eval(a)
+				if err != nil {
+					return v, nil, err
+				}
+				as = append(as, v)
+			}
+			sig := mo.Type().(*types.Signature)
+			if r, ok := vc.modelCall(ec.now, vc.extName(fn), as, fn.Signature, "contract"); ok {
+				var t types.Type
+				if sig.Results().Len() == 1 {
+					t = sig.Results().At(0).Type()
+				}
+				return r, t, nil
+			}
+			return T{}, nil, ec.errf(x, "no model for external method %s", vc.extName(fn))
 		}
 		// receiver adaptation: value <-> pointer
 		sigRecv := fn.Signature.Recv().Type()
